@@ -140,7 +140,10 @@ def run_case(ctx, rng, index, casedir):
                 except Exception as e:  # noqa: BLE001
                     viol.append({"kind": "read_line_failed", "msg": f"GAF.read_line({off}) raised {type(e).__name__}: {e}"})
                 off2rec[off] = i
-        real.close()
+        try:
+            real.close()
+        except OSError:
+            pass  # a reader that was seeked to an invalid offset cannot be closed cleanly
         for nid in w.g.nodes:
             exp = {i for i, s in enumerate(w.nodesets) if nid in s}
             got = {off2rec[o] for o in by_node.get(nid, ()) if off2rec.get(o) is not None}
